@@ -1,15 +1,7 @@
 SPECIFICATION Spec
 CONSTANTS
   Dev = "none"
-  MaxOps = 0
-  Acts = {}
-  CloseBodies = {}
-  Payloads = {}
-  DataKinds = {}
-  ReadModes = {}
-  HandlerSets <- HDefault
-  Limits = {0}
-  Zs = {FALSE}
+  Configs <- ConfigsNeg
   NegSet <- NegAll
 INVARIANTS EmitNeg ServerSelectsOffered ServerPrefers NegotiatedProtocolOffered AgreeSubprotocol SameOriginOnly UpOnlyIfHandshake
 CHECK_DEADLOCK FALSE
